@@ -85,7 +85,10 @@ def run(ctx):
                         if not adm.exists(path):
                             adm.create(path, b'')
                 for i in insts:
-                    if i not in scheduled and rng.random() < 0.6 and not adm.exists(z.path.finished(i)):
+                    # (a stale terminal event of a host that no longer owns the placement leaves a /finished
+                    # record for an instance that is still scheduled: trace.app.zk.publish + _unschedule)
+                    if (i not in scheduled and rng.random() < 0.6 or i in scheduled and rng.random() < 0.35) \
+                            and not adm.exists(z.path.finished(i)):
                         adm.create(z.path.finished(i), ('{"state": "finished", "n": %d}' % rng.randint(0, 99)).encode())
                         srv.nodes[z.path.finished(i)].mtime = int((NOW - expires + rng.choice([-5, -0.5, 0.5, 5, -1000, 200])
                                                                    - (3000 if round_no == 0 else 0)) * 1000)
